@@ -13,6 +13,12 @@ package c13
 //        from the real staking / gov state; the model computes passes / burn / the four option totals with its own
 //        LegacyDec arithmetic and the REGENERATED decision tail, and the answer is compared with what the real Tally says.
 
+//   gescreset | gescd pid n | gescb {s:pid | p:pid[:m,m…]}   (m = n | f | s<amt> | i<amt> | d<pid>_<amt>)
+//        the DEPOSIT ESCROW (Model/C07Escrow.lean, stateful): a deposit that entered the gov module account, and per block the
+//        proposals the end-blocker settles (refund / burn) or passes (settle, then run the messages: nothing / fails / the gov
+//        account PAYS amt / a deposit FROM the gov account) in queue order; the answer `balance deposits` (or `halt`) is compared
+//        with the gov module account's real balance and the sum of the real deposit records after the block.
+
 import (
 	"fmt"
 	"math/rand"
@@ -26,6 +32,8 @@ import (
 	abci "github.com/cometbft/cometbft/abci/types"
 	sdk "github.com/cosmos/cosmos-sdk/types"
 	authtypes "github.com/cosmos/cosmos-sdk/x/auth/types"
+	banktypes "github.com/cosmos/cosmos-sdk/x/bank/types"
+	distrtypes "github.com/cosmos/cosmos-sdk/x/distribution/types"
 	govtypes "github.com/cosmos/cosmos-sdk/x/gov/types"
 	v1 "github.com/cosmos/cosmos-sdk/x/gov/types/v1"
 	stakingkeeper "github.com/cosmos/cosmos-sdk/x/staking/keeper"
@@ -50,6 +58,13 @@ type gworld struct {
 	voters []sdk.AccAddress // 0..nval-1: validator operator accounts; then plain delegators
 	dead   bool
 	nprop  int
+	// proposal messages that move the gov module account's coins (kinds 4..8): amount, target proposal
+	spendAmt int64
+	target   uint64
+	pmsgs    map[uint64]string // proposal id → escrow words of its messages
+	pkind    map[uint64]int
+	// set when a PASSED proposal's paying message left the gov account short of the open deposits (the later halt is its consequence)
+	shortCause string
 }
 
 func (g *gworld) ctx() sdk.Context { return g.s.Ctx }
@@ -146,8 +161,26 @@ func (g *gworld) opUndelegate(d, v int, amt sdkmath.Int) {
 // proposal message kinds: 0 = erc20 MsgUpdateParams (succeeds), 1 = erc20 MsgToggleTokenConversion of an unknown token
 // (handler fails → proposal FAILED, must not halt), 2 = two messages of kind 0, 3 = NO message at all (a text proposal: title and
 // summary only — the per-message-type parameter lookups of the tally run with an empty message list)
+// 4 = bank MsgSend{from: the gov module account} of spendAmt to a voter, 5 = distribution MsgFundCommunityPool{depositor: gov},
+// 6 = MsgDeposit{depositor: gov} on proposal `target` (refused since 45d0bc2: FAILED), 7 = MsgSend followed by a MsgSend the account
+// cannot pay (nothing may be written), 8 = MsgSubmitProposal{proposer: gov} with an initial deposit (refused likewise)
 func (g *gworld) propMsgs(kindN int) []sdk.Msg {
+	govAcc := authtypes.NewModuleAddress(govtypes.ModuleName)
 	switch kindN {
+	case 4:
+		return []sdk.Msg{banktypes.NewMsgSend(govAcc, g.voters[len(g.voters)-1], gcoins(g.spendAmt))}
+	case 5:
+		return []sdk.Msg{&distrtypes.MsgFundCommunityPool{Amount: gcoins(g.spendAmt), Depositor: g.gov}}
+	case 6:
+		return []sdk.Msg{&v1.MsgDeposit{ProposalId: g.target, Depositor: g.gov, Amount: gcoins(g.spendAmt)}}
+	case 7:
+		return []sdk.Msg{banktypes.NewMsgSend(govAcc, g.voters[len(g.voters)-1], gcoins(g.spendAmt)), banktypes.NewMsgSend(govAcc, g.voters[len(g.voters)-1], gcoins(1_000_000_000_000))}
+	case 8:
+		inner, err := v1.NewMsgSubmitProposal(nil, gcoins(g.spendAmt), g.gov, "text proposal", "t", "s", false)
+		if err != nil {
+			g.t.Fatal(err)
+		}
+		return []sdk.Msg{inner}
 	case 3:
 		return []sdk.Msg{}
 	case 1:
@@ -157,6 +190,43 @@ func (g *gworld) propMsgs(kindN int) []sdk.Msg {
 		return []sdk.Msg{m, m}
 	}
 	return []sdk.Msg{&erc20types.MsgUpdateParams{Authority: g.gov, Params: erc20types.DefaultParams()}}
+}
+
+// escWords: what the messages of a proposal of this kind do to the escrow when they run (Model/C07Escrow.PMsg)
+func (g *gworld) escWords(kindN int) string {
+	switch kindN {
+	case 3:
+		return ""
+	case 1:
+		return "f"
+	case 2:
+		return "n,n"
+	case 4, 5:
+		return fmt.Sprintf("s%d", g.spendAmt)
+	case 6:
+		return fmt.Sprintf("d%d_%d", g.target, g.spendAmt)
+	case 7:
+		return fmt.Sprintf("s%d,s1000000000000", g.spendAmt)
+	case 8:
+		return fmt.Sprintf("d0_%d", g.spendAmt)
+	}
+	return "n"
+}
+
+// escrowReal: the gov module account's FX balance and the sum of all recorded deposits
+func (g *gworld) escrowReal() (sdkmath.Int, sdkmath.Int) {
+	bal := g.s.App.BankKeeper.GetBalance(g.ctx(), authtypes.NewModuleAddress(govtypes.ModuleName), fxtypes.DefaultDenom).Amount
+	total := sdkmath.ZeroInt()
+	_ = g.s.App.GovKeeper.Deposits.Walk(g.ctx(), nil, func(_ collections.Pair[uint64, sdk.AccAddress], d v1.Deposit) (bool, error) {
+		total = total.Add(sdk.NewCoins(d.Amount...).AmountOf(fxtypes.DefaultDenom))
+		return false, nil
+	})
+	return bal, total
+}
+
+func (g *gworld) escrowObs() string {
+	b, t := g.escrowReal()
+	return fmt.Sprintf("%s %s", b, t)
 }
 
 func (g *gworld) opSubmit(who int, expedited bool, initial int64, kindN int) uint64 {
@@ -173,11 +243,16 @@ func (g *gworld) opSubmit(who int, expedited bool, initial int64, kindN int) uin
 	res := g.deliver(msg)
 	g.out.Count("gsubmit:" + short(res))
 	g.out.Count(fmt.Sprintf("gsubmit:messages=%d:%s", len(g.propMsgs(kindN)), short(res)))
-	g.out.Emit(fmt.Sprintf("gsubmit %d %v %d %d", who, expedited, initial, kindN), "-")
+	g.out.Emit(strings.TrimSpace(fmt.Sprintf("gsubmit %d %v %d %d %s", who, expedited, initial, kindN, g.escWords(kindN))), "-")
 	if res != "ok" {
 		return 0
 	}
 	g.nprop++
+	g.pmsgs[id], g.pkind[id] = g.escWords(kindN), kindN
+	if kindN >= 4 {
+		g.out.Count(fmt.Sprintf("gsubmit:gov-account-message:kind=%d", kindN))
+	}
+	g.out.Emit(fmt.Sprintf("gescd %d %d", id, initial), g.escrowObs())
 	return id
 }
 
@@ -186,6 +261,9 @@ func (g *gworld) opDeposit(pid uint64, who int, n int64) {
 	res := g.deliver(&v1.MsgDeposit{ProposalId: pid, Depositor: g.voters[who].String(), Amount: gcoins(n)})
 	g.out.Count("gdeposit:" + short(res))
 	g.out.Emit(fmt.Sprintf("gdeposit %d %d %d", pid, who, n), "-")
+	if res == "ok" {
+		g.out.Emit(fmt.Sprintf("gescd %d %d", pid, n), g.escrowObs())
+	}
 }
 
 var gOptNames = map[string]v1.VoteOption{"y": v1.OptionYes, "a": v1.OptionAbstain, "n": v1.OptionNo, "v": v1.OptionNoWithVeto}
@@ -344,8 +422,73 @@ func (g *gworld) inactiveDue(at time.Time) int {
 	return n
 }
 
+// sameBlockSpender: does the KNOWN mechanism alone explain a refund that fails in this very block?  The events of the block are
+// replayed with the arithmetic of the unchanged code (a tallied proposal's deposits are settled first; the messages of a passing
+// one are committed only if all succeed; a payment needs the balance; a deposit from the gov account is refused): the answer is the
+// passed proposal whose committed payment makes a LATER refund of the same block fail, or "" when the replay sees no failure.
+func (g *gworld) sameBlockSpender(evs []string) string {
+	bal, _ := g.escrowReal()
+	deps := map[string]sdkmath.Int{}
+	_ = g.s.App.GovKeeper.Deposits.Walk(g.ctx(), nil, func(key collections.Pair[uint64, sdk.AccAddress], d v1.Deposit) (bool, error) {
+		k := fmt.Sprint(key.K1())
+		if _, ok := deps[k]; !ok {
+			deps[k] = sdkmath.ZeroInt()
+		}
+		deps[k] = deps[k].Add(sdk.NewCoins(d.Amount...).AmountOf(fxtypes.DefaultDenom))
+		return false, nil
+	})
+	spender := ""
+	for _, ev := range evs {
+		f := strings.SplitN(ev, ":", 3)
+		need, ok := deps[f[1]]
+		if !ok {
+			need = sdkmath.ZeroInt()
+		}
+		if bal.LT(need) {
+			return spender
+		}
+		bal = bal.Sub(need)
+		delete(deps, f[1])
+		if f[0] != "p" || len(f) < 3 {
+			continue
+		}
+		tmp, good := bal, true
+		for _, m := range strings.Split(f[2], ",") {
+			switch {
+			case m == "n":
+			case strings.HasPrefix(m, "s"):
+				amt, ok := sdkmath.NewIntFromString(m[1:])
+				if !ok || amt.GT(tmp) {
+					good = false
+				} else {
+					tmp = tmp.Sub(amt)
+				}
+			default: // f, d…
+				good = false
+			}
+		}
+		if good && tmp.LT(bal) {
+			spender = fmt.Sprintf("proposal %s in the same block: %s", f[1], f[2])
+			bal = tmp
+		}
+	}
+	return ""
+}
+
+func (g *gworld) inactiveDuePids(at time.Time) []uint64 {
+	var ids []uint64
+	rng := collections.NewPrefixUntilPairRange[time.Time, uint64](at)
+	_ = g.s.App.GovKeeper.InactiveProposalsQueue.Walk(g.ctx(), rng, func(key collections.Pair[time.Time, uint64], _ uint64) (bool, error) {
+		ids = append(ids, key.K2())
+		return false, nil
+	})
+	return ids
+}
+
 func panicSite(res string) string {
 	switch {
+	case strings.Contains(res, "insufficient funds"):
+		return "panic:refund or burn of deposits fails for lack of funds"
 	case strings.Contains(res, "division by zero"):
 		return "panic:Tally:Quo"
 	case strings.Contains(res, "nil pointer"):
@@ -423,13 +566,59 @@ func (g *gworld) opBlock(dt int64) {
 		obs = strings.TrimSpace("ok " + strings.Join(exp, " "))
 	}
 	op := strings.TrimSpace(fmt.Sprintf("gblock %d %d %s", dt, len(due), strings.Join(words, " ")))
+	// the escrow events of this block in the order of the end-blocker: the inactive queue (deposit periods over: refund or
+	// burn), then the active queue (tallied: refund or burn unless an expedited proposal is converted; a passing one then runs
+	// its messages)
+	var evs []string
+	escOK := true
+	for _, pid := range g.inactiveDuePids(at) {
+		evs = append(evs, fmt.Sprintf("s:%d", pid))
+	}
+	for _, d := range due {
+		dr, ok := dry[d.pid]
+		switch {
+		case !ok:
+			escOK = false
+		case dr.passes && g.pmsgs[d.pid] != "":
+			evs = append(evs, fmt.Sprintf("p:%d:%s", d.pid, g.pmsgs[d.pid]))
+		case dr.passes:
+			evs = append(evs, fmt.Sprintf("p:%d", d.pid))
+		case !d.exp:
+			evs = append(evs, fmt.Sprintf("s:%d", d.pid))
+		}
+		if ok && dr.passes && g.pkind[d.pid] >= 4 {
+			g.out.Count(fmt.Sprintf("gblock:passes-with-gov-account-message:kind=%d", g.pkind[d.pid]))
+			g.out.Nontrivial("gblock:passes-with-gov-account-message")
+		}
+	}
+	escOp := strings.TrimSpace("gescb " + strings.Join(evs, " "))
+	bal0, total0 := g.escrowReal()
+	sameBlock := ""
+	if escOK {
+		sameBlock = g.sameBlockSpender(evs)
+	}
 	g.now = at
 	res := hx.Try(func() error { return finalizeAt(g.s, g.now) })
 	if res != "ok" {
 		g.dead = true
 		g.out.Emit(op, obs)
-		g.out.Violate(fmt.Sprintf("C07 block processing halts: FinalizeBlock %s with %d proposal(s) due for tally and %d deposit period(s) expiring (gov end-blocker): %s",
-			strings.SplitN(res, ":", 2)[0], len(due), nInactive, strings.TrimPrefix(panicSite(res), "panic:")))
+		site := strings.TrimPrefix(panicSite(res), "panic:")
+		// the cause comes FIRST in the text: violations are grouped by the beginning of their description
+		head := "C07 block processing halts"
+		if strings.Contains(res, "insufficient funds") {
+			if escOK {
+				g.out.Emit(escOp, "halt")
+			}
+			if g.shortCause != "" {
+				head = "C07 block processing halts, gov escrow spent by a proposal message (short since " + g.shortCause + ")"
+			} else if sameBlock != "" {
+				head = "C07 block processing halts, gov escrow spent by a proposal message (" + sameBlock + ", whose payment makes a later refund of this block fail)"
+			} else {
+				head = fmt.Sprintf("C07 block processing halts, a gov refund or burn fails although no passed proposal message had left the account short before this block (it held %s for %s of deposits)", bal0, total0)
+			}
+		}
+		g.out.Violate(fmt.Sprintf("%s: FinalizeBlock %s with %d proposal(s) due for tally and %d deposit period(s) expiring (gov end-blocker): %s",
+			head, strings.SplitN(res, ":", 2)[0], len(due), nInactive, site))
 		g.out.Count("gblock:halt")
 		return
 	}
@@ -439,6 +628,48 @@ func (g *gworld) opBlock(dt int64) {
 		g.out.Nontrivial("gblock:deposit-period-expired")
 	}
 	g.out.Emit(op, obs)
+	if escOK && len(evs) > 0 {
+		g.out.Emit(escOp, g.escrowObs())
+	}
+	// the deposit escrow, on the real state: the gov module account must cover the open deposits, or a later refund / burn fails
+	// and the end-blocker halts
+	bal, total := g.escrowReal()
+	var spenders, statuses []string
+	anyPassed := false
+	for _, d := range due {
+		p, err := k.Proposals.Get(g.ctx(), d.pid)
+		if err != nil {
+			continue
+		}
+		statuses = append(statuses, fmt.Sprintf("%d:%s", d.pid, strings.TrimPrefix(p.Status.String(), "PROPOSAL_STATUS_")))
+		if p.Status == v1.StatusPassed {
+			anyPassed = true
+			if kd := g.pkind[d.pid]; kd == 4 || kd == 5 || kd == 7 {
+				spenders = append(spenders, fmt.Sprintf("proposal %d kind %d: %s", d.pid, kd, g.pmsgs[d.pid]))
+			}
+		}
+	}
+	switch {
+	case bal.LT(total) && len(spenders) > 0:
+		g.shortCause = strings.Join(spenders, "; ")
+		g.out.Violate(fmt.Sprintf("C07 block processing will halt: gov escrow spent by a proposal message: after the block the gov module account holds %s but the open deposits sum to %s (PASSED %s): the refund or burn of an open proposal fails and gov.EndBlocker returns the error",
+			bal, total, g.shortCause))
+		g.out.Count("gblock:escrow-short")
+	case bal.LT(total) && g.shortCause == "":
+		g.out.Violate(fmt.Sprintf("C07 block processing will halt: the gov module account holds %s but the open deposits sum to %s, and no PASSED proposal carried a paying message (due: %s): a deposit record without coins, or coins that left with a FAILED proposal",
+			bal, total, strings.Join(statuses, " ")))
+		g.out.Count("gblock:escrow-short-unexplained")
+	case bal.LT(total):
+		g.out.Count("gblock:escrow-short")
+	default:
+		g.out.Count("gblock:escrow-covered")
+	}
+	// nothing a FAILED (or rejected) proposal did may stay: in a block in which no proposal passed, the account's surplus over the
+	// open deposits cannot shrink
+	if !anyPassed && bal.Sub(total).LT(bal0.Sub(total0)) {
+		g.out.Violate(fmt.Sprintf("C07 gov end-blocker: coins left the gov module account in a block in which no proposal passed (surplus over the open deposits %s → %s; due: %s): messages of a FAILED proposal were not discarded",
+			bal0.Sub(total0), bal.Sub(total), strings.Join(statuses, " ")))
+	}
 	// the end-blocker must have acted on every due proposal exactly as the tally said
 	for _, d := range due {
 		dr, ok := dry[d.pid]
@@ -492,7 +723,10 @@ func newGWorld(t *testing.T, out *hx.Out, rng *rand.Rand) *gworld {
 	if err := finalizeAt(s, g.now); err != nil {
 		t.Fatal(err)
 	}
+	g.pmsgs, g.pkind = map[uint64]string{}, map[uint64]int{}
+	g.spendAmt = 1
 	out.Reset()
+	out.Emit("gescreset", g.escrowObs())
 	return g
 }
 
@@ -548,7 +782,58 @@ func (g *gworld) scenario(n int) {
 		}
 	}
 	m := g.baseParams()
-	switch n % 10 {
+	// carrier: a proposal whose message is signed by the gov module account and moves (or claims to deposit) its coins; it passes
+	// while `target`'s deposit still sits in the account, then the target ends (deposit period over, or tallied)
+	carrier := func(kind int, amt int64, target uint64) uint64 {
+		g.spendAmt, g.target = amt, target
+		pid := g.voting(false, kind)
+		all(pid, "y")
+		return pid
+	}
+	switch n % 15 {
+	case 10: // bank MsgSend from the gov account for exactly the target's deposit; the target's deposit period then expires (refund)
+		g.opParams(m)
+		g.setCustoms(nil, 0)
+		target := g.opSubmit(nv, false, 10, 3)
+		carrier(4, 10, target)
+		run(5)
+	case 11: // MsgFundCommunityPool from the gov account, ONE base unit: the escrow is short by 1; prevote burn of the expired target
+		m.burnPre = true
+		g.opParams(m)
+		g.setCustoms(nil, 0)
+		target := g.opSubmit(nv+1, false, 998, 0)
+		g.opDeposit(target, nv, 0+1)
+		carrier(5, 1, target)
+		run(5)
+	case 12: // the target is in its voting period and is rejected by vote (refund) / vetoed (burn) after the carrier spent part of its deposit
+		g.opParams(m)
+		g.setCustoms(nil, 0)
+		g.opBlock(5)
+		target := g.voting(false, 0)
+		all(target, []string{"n", "v"}[g.rng.Intn(2)])
+		g.opBlock(1) // the carrier's voting period ends ... before the target's? no: it started later; use an expedited carrier (10 s)
+		g.spendAmt, g.target = 600, target
+		pid := g.voting(true, 4)
+		all(pid, "y")
+		run(4)
+	case 14: // a lone proposal whose message pays away exactly its OWN deposit (and one paying a single base unit): its deposit is
+		// refunded before the messages run, so the account is empty and the handler fails — FAILED, nothing moves
+		g.opParams(m)
+		g.setCustoms(nil, 0)
+		carrier(4, 1000, 0)
+		run(3)
+		carrier(5, 1, 0)
+		run(3)
+	case 13: // refused or harmless: MsgDeposit / MsgSubmitProposal from the gov account (FAILED since 45d0bc2), a spend larger than the
+		// balance (handler fails), a spend followed by a failing message (discarded), then everything is settled
+		g.opParams(m)
+		g.setCustoms(nil, 0)
+		target := g.opSubmit(nv, false, 500, 3)
+		carrier(6, 500, target)
+		carrier(8, 700, 0)
+		carrier(4, 1_000_000, target)
+		carrier(7, 500, target)
+		run(6)
 	case 0: // quorum reached with ABSTAIN votes only
 		g.opParams(m)
 		g.setCustoms(nil, 0)
@@ -669,13 +954,31 @@ func (g *gworld) sequence(length int) {
 		case r < 45:
 			exp := rng.Intn(3) == 0
 			var id uint64
+			kind := rng.Intn(4)
+			if rng.Intn(3) == 0 { // a message that moves the gov module account's coins: boundary amounts around the escrow
+				kind = 4 + rng.Intn(5)
+				bal, total := g.escrowReal()
+				g.spendAmt = []int64{1, 10, 999, 1000, 1001, total.Int64(), bal.Int64() + 1000, bal.Int64() + 1001}[rng.Intn(8)]
+				if g.spendAmt <= 0 {
+					g.spendAmt = 1
+				}
+				g.target = 0
+				if len(open) > 0 {
+					g.target = open[rng.Intn(len(open))]
+				}
+			}
 			if rng.Intn(4) == 0 {
-				id = g.opSubmit(nv+rng.Intn(4), exp, int64(1+rng.Intn(999)), rng.Intn(4))
+				id = g.opSubmit(nv+rng.Intn(4), exp, int64(1+rng.Intn(999)), kind)
 			} else {
-				id = g.voting(exp, rng.Intn(4))
+				id = g.voting(exp, kind)
 			}
 			if id != 0 {
 				open = append(open, id)
+				if kind >= 4 && rng.Intn(2) == 0 { // let it pass
+					for i := 0; i < nv; i++ {
+						g.opVote(id, i, "y")
+					}
+				}
 			}
 		case r < 75:
 			voting := g.inVoting()
@@ -726,7 +1029,7 @@ func (g *gworld) sequence(length int) {
 }
 
 func runGov(t *testing.T, out *hx.Out, rng *rand.Rand) {
-	nscen := 10
+	nscen := 15
 	nseq := hx.N(16, 150)
 	for i := 0; i < nscen; i++ {
 		g := newGWorld(t, out, rng)
